@@ -366,3 +366,96 @@ func limitMemory(bytes uint64) {
 	lim.Cur, lim.Max = bytes, bytes
 	syscall.Setrlimit(syscall.RLIMIT_AS, &lim)
 }
+
+// ---- C01, reply order -------------------------------------------------------------------------------
+//
+// Replies leave in the order of the requests whatever the schedule of the connection's goroutines
+// (state machine, one goroutine per dispatched command) is: pipelines written in one segment,
+// explored over all schedules (no preemption bound, partial-order reduction).
+
+func init() {
+	extraGroups["C01"] = []exploreGroup{{"order", 1, 2}}
+	extraScenarios["C01/order"] = orderScenarios
+	unboundedPass["C01/order"] = "quick thorough instead"
+}
+
+type orderScenario struct {
+	name string
+	cmds [][]string
+}
+
+func (os *orderScenario) body(x *Exec) {
+	vnet.ResetNet()
+	verifrt.SetSerial(true)
+	vi := redisemu.VNew("")
+	srv, cli := vnet.Pipe("127.0.0.1:6379", "127.0.0.1:40001")
+	vi.NewCxn(srv)
+	verifrt.AwaitQuiescence()
+	var stream []byte
+	for _, c := range os.cmds {
+		stream = append(stream, vm.Encode(c...)...)
+	}
+	verifrt.SetSerial(false)
+	cli.Write(stream)
+	verifrt.AwaitQuiescence()
+	verifrt.SetSerial(true)
+	var out []byte
+	buf := make([]byte, 1<<20)
+	for cli.Pending() > 0 {
+		n, _ := cli.Read(buf)
+		out = append(out, buf[:n]...)
+	}
+	x.Extra["out"] = out
+	x.Final = shortHash(string(out))
+}
+
+func (os *orderScenario) check(x *Exec) [][2]string {
+	out, _ := x.Extra["out"].([]byte)
+	replies, err := vm.ParseAll(out)
+	if err != nil {
+		return [][2]string{{"reply-stream-malformed", fmt.Sprintf("reply stream %q: %v", clipB(out), err)}}
+	}
+	model := vm.NewModel(epochMs)
+	model.NewSession()
+	if len(replies) != len(os.cmds) {
+		return [][2]string{{"reply-count", fmt.Sprintf("%d commands, %d replies: %q", len(os.cmds), len(replies), clipB(out))}}
+	}
+	for i, c := range os.cmds {
+		want := model.Exec(0, c)
+		if ok, why := vm.Match(want, replies[i]); !ok {
+			return [][2]string{{"reply-order", fmt.Sprintf("reply %d of the pipeline %v does not belong to command %d %v: %s (replies: %q)", i, pipelineNames(os.cmds), i, clipArgs(c), why, clipB(out))}}
+		}
+	}
+	return nil
+}
+
+func pipelineNames(cmds [][]string) []string {
+	var n []string
+	for _, c := range cmds {
+		n = append(n, strings.ToUpper(c[0]))
+	}
+	return n
+}
+
+func orderScenarios(tier string) []*Scenario {
+	big := bigString(20000)
+	list := []orderScenario{
+		{"order/PING+ECHO+PING", [][]string{{"PING"}, {"ECHO", "x"}, {"PING", "y"}}},
+		{"order/SET+GET+DEL+GET", [][]string{{"SET", "k", "v"}, {"GET", "k"}, {"DEL", "k"}, {"GET", "k"}}},
+		{"order/big-GET+PING", [][]string{{"SET", "k", big}, {"GET", "k"}, {"PING"}}},
+		{"order/INCRx3", [][]string{{"INCR", "n"}, {"INCR", "n"}, {"INCR", "n"}}},
+		{"order/error+PING", [][]string{{"NOSUCH"}, {"PING"}, {"GET"}, {"ECHO", "z"}}},
+	}
+	if tier == "thorough" {
+		list = append(list,
+			orderScenario{"order/MULTI+SET+EXEC+GET", [][]string{{"MULTI"}, {"SET", "k", "1"}, {"EXEC"}, {"GET", "k"}}},
+			orderScenario{"order/RPUSH+LRANGE+LPOP+LLEN", [][]string{{"RPUSH", "l", "a", "b"}, {"LRANGE", "l", "0", "-1"}, {"LPOP", "l"}, {"LLEN", "l"}}},
+			orderScenario{"order/PINGx6", [][]string{{"PING", "1"}, {"PING", "2"}, {"PING", "3"}, {"PING", "4"}, {"PING", "5"}, {"PING", "6"}}})
+	}
+	var out []*Scenario
+	for i := range list {
+		o := &list[i]
+		out = append(out, &Scenario{Name: o.name, Body: o.body, Check: o.check, Horizon: 200000})
+	}
+	return out
+}
